@@ -733,6 +733,7 @@ func (pl *plan) build() {
 	pl.streams = append(pl.streams, exprRandStream(pl.seed, nrand))
 	pl.streams = append(pl.streams, exprTypedStream())
 	pl.streams = append(pl.streams, exprSectionStream())
+	pl.streams = append(pl.streams, runScriptStream())
 	// (iii) byte level, all four channels
 	per := 70
 	if !quick {
@@ -1068,6 +1069,23 @@ func exprSectionStream() *Stream {
 	o := sectionOperands
 	return &Stream{Name: "expr-section", N: len(o), Get: func(i int) *Case {
 		return &Case{Stream: "expr-section", Idx: i, Channel: chWorkflow, Data: sectionWorkflow(o[i]), Desc: fmt.Sprintf("expression %q as the whole value of every section that may be given by one placeholder", o[i])}
+	}}
+}
+
+// run: scripts that hold what the script-scanning rules look for (deprecated workflow commands in
+// every letter case and with odd arguments, shell syntax the commands rule splits on)
+func runScriptStream() *Stream {
+	var scripts []string
+	for _, c := range []string{"set-output", "save-state", "set-env", "add-path"} {
+		for _, sp := range []string{c, strings.ToUpper(c), strings.ToUpper(c[:1]) + c[1:], strings.ReplaceAll(c, "-", "_"), c + "x", ""} {
+			for _, arg := range []string{" name=a::b", "::/x", "", " name=::", "::", " name=a", " NAME=a::b::c"} {
+				scripts = append(scripts, "echo \"::"+sp+arg+"\"", "::"+sp+arg, "echo '::"+sp+arg+"' >> $GITHUB_OUTPUT\necho ::"+sp+arg)
+			}
+		}
+	}
+	return &Stream{Name: "run-scripts", N: len(scripts), Get: func(i int) *Case {
+		src := "on: push\njobs:\n  j:\n    runs-on: ubuntu-latest\n    steps:\n      - run: " + yamlDQ(scripts[i]) + "\n      - run: |\n          " + strings.ReplaceAll(scripts[i], "\n", "\n          ") + "\n"
+		return &Case{Stream: "run-scripts", Idx: i, Channel: chWorkflow, Data: []byte(src), Desc: fmt.Sprintf("run: script %q", scripts[i])}
 	}}
 }
 
